@@ -33,6 +33,12 @@ pub struct Case {
     /// later one overrides
     #[serde(default)]
     pub earlier_flag: u8,
+    /// 0: as above (entries evaluated at one depth only); 1: with `depth0` the starting points are
+    /// walked to the bottom, so that the record of a starting point is chosen while entries below it
+    /// are still to come; 2: the same under -depth (and -depth in the one-level form too), where a
+    /// directory is evaluated after everything beneath it
+    #[serde(default)]
+    pub walk: u8,
 }
 
 const IDS: &[u32] = &[0, 1, 65534, 54321];
@@ -228,7 +234,7 @@ pub fn gen_case(g: &mut Gen) -> Case {
         };
         tests.push(Test { tokens: t });
     }
-    Case { tree: TreeSpec { nodes }, follow, depth0, tests, earlier_flag: if g.chance(1, 5) { g.usize_in(1, 2) as u8 } else { 0 } }
+    Case { tree: TreeSpec { nodes }, follow, depth0, tests, earlier_flag: if g.chance(1, 5) { g.usize_in(1, 2) as u8 } else { 0 }, walk: g.weighted(&[2, 1, 1]) as u8 }
 }
 
 fn cmp_num(op: &str, value: u64) -> bool {
@@ -392,7 +398,12 @@ pub fn check(ctx: &mut Ctx, c: &Case) -> Outcome {
     let entries: Vec<RefEntry> = if c.depth0 {
         let mut v: Vec<String> = children.clone();
         v.sort();
-        v.iter().filter_map(|p| make_entry(p, 0, fm)).collect()
+        if c.walk == 0 {
+            v.iter().filter_map(|p| make_entry(p, 0, fm)).collect()
+        } else {
+            let wo = WalkOpts { follow: fm, depth_first: c.walk == 2, ..Default::default() };
+            v.iter().flat_map(|p| ref_paths(p, &wo).0).collect()
+        }
     } else {
         let wo = WalkOpts { follow: fm, min_depth: 1, max_depth: 1, ..Default::default() };
         ref_paths("c/d", &wo).0
@@ -435,8 +446,15 @@ pub fn check(ctx: &mut Ctx, c: &Case) -> Outcome {
             let mut v = children.clone();
             v.sort();
             args.extend(v);
-            args.push("-maxdepth".into());
-            args.push("0".into());
+            if c.walk == 0 {
+                args.push("-maxdepth".into());
+                args.push("0".into());
+            } else {
+                args.push("-sorted".into());
+                if c.walk == 2 {
+                    args.push("-depth".into());
+                }
+            }
         } else {
             args.push("c/d".into());
             args.push("-mindepth".into());
@@ -444,6 +462,9 @@ pub fn check(ctx: &mut Ctx, c: &Case) -> Outcome {
             args.push("-maxdepth".into());
             args.push("1".into());
             args.push("-sorted".into());
+            if c.walk == 2 {
+                args.push("-depth".into());
+            }
         }
         args.extend(tokens.iter().cloned());
         args.push("-print0".into());
@@ -483,6 +504,8 @@ pub fn check(ctx: &mut Ctx, c: &Case) -> Outcome {
             FollowMode::L => "follow-L",
         })
         .class_if(c.depth0, "entries-as-starting-points")
+        .class_if(c.depth0 && c.walk > 0, "starting-points-walked-to-the-bottom")
+        .class_if(c.walk == 2, "under--depth")
         .sample(json!({"follow": fm.flag(), "depth0": c.depth0, "tests": c.tests.iter().map(|t| t.tokens.join(" ")).collect::<Vec<_>>()}))
         .ok()
 }
